@@ -146,6 +146,8 @@ def failure_value(f, r):
     if cv is not None:
         return True
     s = strip(v)
+    if s["k"] == "CallExpr" and s.get("fn", "").startswith("std::numeric_limits") and callee_name(s) in ("max", "min", "lowest"):
+        return True
     if s["k"] == "DeclRefExpr" and s.get("dk") == "local":
         defs = []
         for n in f.live_nodes():
@@ -479,6 +481,19 @@ def r_sentinel(db, rep):
                 if x["k"] == "ImplicitCastExpr" and x.get("ck") == "IntegralCast":
                     widened = True
                 x = cs[0]
+            if x["k"] == "DeclRefExpr" and x.get("dk") in ("global", "staticmember") and x.get("const"):
+                # a named constant used as the sentinel
+                ct = f.type(x)
+                val = const_value(x)
+                if ct and ct.get("kind") == "uint" and ct.get("bits") and val is not None and val == (1 << ct["bits"]) - 1:
+                    rep.visit(f)
+                    rep.inst(f.nloc(n), "%s returns the all-ones constant %s (%s) as %s" % (f.qn, x.get("n"), ct["s"], rt["s"]))
+                    rep.ob()
+                    if ct["bits"] < rt["bits"]:
+                        rep.viol("%s#narrow-sentinel" % f.qn, f.nloc(n),
+                                 "%s returns the %d-bit all-ones constant %s from a function returning %s: zero-extended it is not the %d-bit "
+                                 "sentinel callers test for" % (f.qn, ct["bits"], x.get("n"), rt["s"], rt["bits"]), f.qn)
+                continue
             if x["k"] not in EXPLICIT_CASTS:
                 continue
             y = x.get("sub") if x.get("sub") is not None else (children(x) or [None])[0]
